@@ -237,7 +237,7 @@ Proof. reflexivity. Qed.
    ===================================================================================== *)
 
 (* an object the form's Yaqlized type check rejects (not yaqlized at all, or that switch off), and
-   that is not fed as a callable VALUE into a lambda parameter through call() (known finding F20,
+   that is not fed as a callable VALUE into a lambda parameter through call() (known finding F22,
    below): every path ends in a resolution error, the RuntimeError of the kwargs filter, or overload
    resolution among REGISTERED functions (C07_only_gated_payloads_touch_hosts says what those may
    do); none performs a member access and none calls the object *)
@@ -293,7 +293,7 @@ Theorem C07_invoke_only_via_call_lambda_value : forall rs ps cfg reg_fn reg_meth
   run_path rs ps cfg reg_fn reg_meth st p = FInvoke -> path_lam p = true /\ path_form p = None.
 Proof. exact invoke_only_via_call. Qed.
 
-(* KNOWN FINDING F20 (open).  The full-strength statement - no path around the gate ever touches a
+(* KNOWN FINDING F22 (open).  The full-strength statement - no path around the gate ever touches a
    non-yaqlized host object - is FALSE of the code as it is: call(name, [.. $obj ..], kwargs) hands
    $obj as a value to a Lambda-typed parameter and Lambda._call invokes it, in an engine created
    without allow_delegates.  The model is faithful to that. *)
